@@ -71,3 +71,23 @@ PROPS["C08"] = {
                    "dict_peak_bound (never exceeds L by what one record adds), reset_announced (reader and writer dictionary "
                    "epochs agree for every record), frame_bound, open_frame_below_limit."),
 }
+
+PROPS["C14"] = {
+    "lean_modules": ["Stef.Props.C14"],
+    "harness": [{"bin": "h_hs", "args": []}],
+    "rule": ("cases = generated (client, server) wire-schema pairs of six relations (identical, server ahead, client ahead, "
+             "diverged, equal-length-equal-total permutations, unrelated) x dictionary limits; Compatible verdicts in both "
+             "directions and the options returned by the real Client.Connect against a real StreamServer over loopback gRPC, "
+             "replayed on the Lean model; non-trivial = the two schemas differ; distinct by generator draw"),
+    "trusted_base": COMMON_TB + [
+        "Stef/Handshake.lean is a hand transcription of WireSchema.Compatible, of the decision part of Client.Connect and "
+        "of the option handling of New<Root>Writer, tied by h_hs",
+        "gRPC transport of the capabilities message",
+    ],
+    "assumptions": ["the data path across generated packages of two schema versions is covered by C04 (h_gen), not here"],
+    "level_text": ("Decision logic stated outright on wire schemas: connect_dict_limit, writer_dict_limit, connect_exact, "
+                   "compatible_exact_iff, connect_sound_partial (exact and server-ahead branches), "
+                   "connect_fails_when_both_incompatible; the full soundness statement is proved FALSE from two witnesses "
+                   "(compatible_totals_witness, connect_client_superset_witness, connect_sound_false) - both are recorded "
+                   "known findings."),
+}
